@@ -126,7 +126,9 @@ func c06Sizes(thorough bool) []int {
 // ---- PNG -------------------------------------------------------------------
 
 func c06PNG(rng *core.RNG, profile []byte, nameLen, level int, placement string, damage string) c06File {
-	s := pngSpecFor(uint32(1+rng.Intn(3000)), uint32(1+rng.Intn(3000)), 6, 8, 0, rng)
+	// every colour type, indexed colour (with its PLTE / tRNS chunks between iCCP and IDAT) included
+	td := [][2]uint8{{6, 8}, {6, 16}, {2, 8}, {0, 8}, {4, 8}, {3, 8}, {3, 4}, {3, 1}, {6, 8}}[len(profile)%9]
+	s := pngSpecFor(uint32(1+rng.Intn(3000)), uint32(1+rng.Intn(3000)), td[0], td[1], 0, rng)
 	icc := &imggen.PNGICC{Name: latin1(rng, nameLen), Profile: profile, Level: level}
 	switch placement {
 	case "after-IHDR":
@@ -136,10 +138,11 @@ func c06PNG(rng *core.RNG, profile []byte, nameLen, level int, placement string,
 			s.Pre = []imggen.PNGChunk{{Type: "gAMA", Data: []byte{0, 0, 0xb1, 0x8f}}}
 		}
 	case "before-chunks":
-		s.Post = randAncillary(rng, 4, true)
-		if len(s.Post) == 0 {
-			s.Post = []imggen.PNGChunk{{Type: "pHYs", Data: []byte{0, 0, 1, 0, 0, 0, 1, 0, 1}}}
+		anc := randAncillary(rng, 4, true)
+		if len(anc) == 0 {
+			anc = []imggen.PNGChunk{{Type: "pHYs", Data: []byte{0, 0, 1, 0, 0, 0, 1, 0, 1}}}
 		}
+		s.Post = append(s.Post, anc...)
 	}
 	stream := imggen.Deflate(profile, level)
 	switch damage {
@@ -543,13 +546,31 @@ func c06Files(seed int64, thorough bool) []func() (c06File, bool) {
 			return c06File{f, "big/" + f.Truth.Format + "/" + f.Truth.ICCState, false}, true
 		})
 	}
+	// "whatever the profile's size": one profile of more than 64 MiB in a WebP, one of 65 MiB in a
+	// PNG (stored, so that the compressed stream is larger still); built when the case runs
+	for i := 0; i < 2 && !c06SkipBig; i++ {
+		i := i
+		add(func(r *core.RNG) (c06File, bool) {
+			if i == 0 {
+				p := profileBytes(r, 64<<20+4097, 2)
+				b, t := imggen.WebPSpec{Kind: "VP8X", W: 800, H: 600, ICC: p, Payload: r.Bytes(10)}.Build()
+				return c06File{genFile{fmt.Sprintf("huge: webp with a %d-byte profile", len(p)), b, t}, "huge/WebP/ok", false}, true
+			}
+			p := profileBytes(r, 65<<20, 2)
+			s := pngSpecFor(640, 480, 2, 8, 0, r)
+			s.ICC = &imggen.PNGICC{Name: "huge", Profile: p, Level: 0}
+			b, t := s.Build()
+			return c06File{genFile{fmt.Sprintf("huge: png with a stored %d-byte profile", len(p)), b, t}, "huge/PNG/ok", false}, true
+		})
+	}
 	// no profile at all
 	for i := 0; i < 60; i++ {
 		i := i
 		add(func(r *core.RNG) (c06File, bool) {
 			switch i % 4 {
 			case 0:
-				s := pngSpecFor(uint32(1+r.Intn(99)), uint32(1+r.Intn(99)), 2, 8, 0, r)
+				td := [][2]uint8{{2, 8}, {3, 8}, {3, 2}, {0, 16}, {4, 16}, {6, 8}}[(i/4)%6]
+				s := pngSpecFor(uint32(1+r.Intn(99)), uint32(1+r.Intn(99)), td[0], td[1], 0, r)
 				s.Pre = randAncillary(r, 5, false)
 				b, t := s.Build()
 				return c06File{genFile{"png no profile", b, t}, "PNG/none", false}, true
